@@ -90,6 +90,9 @@ def instances(tier, seed):
     for when in ('before', 'after', 'edited-method'):
         for clones in (False, True):
             add(kind='multistage', when=when, clones=clones)
+    # the second stage created ON the first one (a grandchild of the Ocp)
+    for when in ('after', 'edited-method'):
+        add(kind='multistage', when=when, clones=False, nested=True)
     # seeded random problems (model, constraints, objective, guesses): the relational comparison needs no reference semantics
     from .. import randspec
     rr = random.Random(seed * 7919 + 1818)
@@ -147,9 +150,11 @@ def run_multistage(item):
         stages = [dict(spec=c12.stage_model(0), cfg=cfgs[0], t0=hz[i][0], T=hz[i][1], clone_of='tpl', pvals={'a': Fr(5 + 2 * i, 4)}) for i in range(2)]
     else:
         stages = [dict(spec=c12.stage_model(i), cfg=cfgs[i], t0=hz[i][0], T=hz[i][1], clone_of=None) for i in range(2)]
+        if item.get('nested'):
+            stages[1]['nested_in'] = 0
     desc = dict(stages=stages, coupling=[('cont', 0, 1), ('wge', 1)], parent=[('w2',), ('par',)])
     extra = lambda b: [b.ocp.value(b.w), b.ocp.value(b.w2), b.ocp.value(b.pa), b.ocp.value(b.pb)]
-    tag = 'multistage|%s|save-%s' % ('clones' if clones else 'direct', when)
+    tag = 'multistage|%s|save-%s' % ('clones' if clones else ('nested' if item.get('nested') else 'direct'), when)
     viol = []
     with quiet():
         m = c12.build(desc)
@@ -182,7 +187,7 @@ def run_multistage(item):
             v2, p2 = list(ocp2.variables['']), list(ocp2.parameters[''])
             m2.w, m2.w2, m2.pa, m2.pb = v2[0], v2[1], p2[0], p2[1]
             m2.stage_builts = []
-            for bs, st2 in zip(m.stage_builts, list(ocp2._stages)):
+            for bs, st2 in zip(m.stage_builts, list(ocp2.iter_stages())):
                 b2 = rebuilt(st2, bs, bs.spec, bs.cfg)
                 b2.ocp, b2.stage = ocp2, st2
                 m2.stage_builts.append(b2)
